@@ -70,6 +70,16 @@ CHECKS = {
              "rendering of the plain text form; known finding: ASSIGNIMMUTABLE operand missing in the sub-block list",
         technique="bounded-exhaustive enumeration of programs x split policies against an independent partition "
                   "model"),
+    "C15": dict(
+        level="exploration", engine="E7", ref="DESIGN.md section 4 C15",
+        text="all shipped asm-JSON examples and grammar-generated documents (every item kind, optional fields, nested "
+             ".data, contracts without asm, several contracts) x PUSH0 on/off are read and written back and compared "
+             "as JSON values; every block of a prefix tree over stack/arith/pseudo-push symbols goes through both "
+             "plain renderings and the plain parser; ten spellings of each of 21 constants must parse to the value",
+        note="document comparison treats {PUSH,\"0\"} and {PUSH0} as the same item when PUSH0 is enabled (consistency "
+             "of the spelling is C17's subject); library references compare by first-occurrence index in the plain form",
+        technique="bounded-exhaustive enumeration of documents, blocks and spellings with a differential round-trip "
+                  "oracle"),
 }
 
 NOT_YET = "check not built yet in this session (planned in DESIGN.md section 4); nothing is claimed for it"
